@@ -176,10 +176,24 @@ class RefModel:
         return {p: value.eval_eq(p) for p in self.state_paths}
 
     # --------------------------------------------------------------------------------------------------
-    def simulate(self, T_steps, dt, solver="euler", inputs=None, record_every=1, y0=None, params=None):
+    def simulate(self, T_steps, dt, solver="euler", inputs=None, record_every=1, y0=None, params=None, _probe=True):
         """Fixed-step reference integration (Euler / Heun) with discrete edge delays and extrinsic inputs.
         inputs: {target path: array (N,)} sample k held during step k.  Returns array (n_rec, n_state) in
-        state_paths order; row j is the state after j*record_every steps (row 0 = initial state)."""
+        state_paths order; row j is the state after j*record_every steps (row 0 = initial state).
+        A recurrence that amplifies a perturbation of 1e-12 of its initial state by more than a factor 1000 cannot be
+        compared at 1e-8 with another floating-point evaluation order: such a (chaotic / explosively growing) reference
+        is returned as NaN, which every caller rejects as 'not benign'."""
+        if _probe:
+            ref = self.simulate(T_steps, dt, solver, inputs, record_every, y0, params, _probe=False)
+            if np.all(np.isfinite(ref)):
+                base = dict(self.y0() if y0 is None else y0)
+                pert = {k: v * (1.0 + 1e-12) + 1e-13 for k, v in base.items()}
+                ref2 = self.simulate(T_steps, dt, solver, inputs, record_every, pert, params, _probe=False)
+                with np.errstate(all="ignore"):
+                    dev = np.max(np.abs(ref2 - ref)) if np.all(np.isfinite(ref2)) else np.inf
+                if not dev <= 1e-9 * (1.0 + float(np.max(np.abs(ref)))):
+                    return np.full_like(ref, np.nan)
+            return ref
         y = dict(self.y0() if y0 is None else y0)
         sp = self.state_paths
         delayed = {}
